@@ -39,33 +39,6 @@ example : follow ⟨1, none⟩ true 3 0 false = some (1, 1) := rfl              
 example : follow ⟨0, some 1⟩ false 3 1 false = some (1, 2) := rfl              -- table already points at the target (MOVED, then ASK)
 example : follow ⟨0, some 1⟩ false 3 2 false = some (1, 2) := rfl              -- table points at a third node
 
-/-! ## tie to the code -/
-
-theorem code_matches_model :
-    Gen.Upstream.handleResp =
-      ["if v.Type != Error { req.SetResponse(v) return }",
-       "i := bytes.Index(v.Text, []byte(\" \"))",
-       "var errPrefix []byte",
-       "if i != -1 { errPrefix = v.Text[:i] }",
-       "switch { case bytes.EqualFold(errPrefix, []byte(MOVED)), bytes.EqualFold(errPrefix, []byte(ASK)): if c.onRedirection != nil { c.onRedirection(req, v) return } case bytes.EqualFold(errPrefix, []byte(CLUSTERDOWN)): if c.onClusterDown != nil { c.onClusterDown(req, v) return } }",
-       "req.SetResponse(v)"] ∧
-    Gen.Upstream.handleRedirection =
-      ["err := strings.Split(string(resp.Text), \" \")",
-       "if len(err) < 3 { req.SetResponse(resp) return }",
-       "hostAddr := err[2]",
-       "switch strings.ToLower(err[0]) { case MOVED: u.stats.Counter(\"moved\").Inc() u.MakeRequestToHost(hostAddr, req) case ASK: askingReq := newSimpleRequest(newArray( *newBulkString(ASKING), )) u.MakeRequestToHost(hostAddr, askingReq) u.MakeRequestToHost(hostAddr, req) default: req.SetResponse(resp) return }",
-       "u.triggerSlotsRefresh()"] ∧
-    Gen.Upstream.handleClusterDown =
-      ["u.triggerSlotsRefresh()",
-       "req.SetResponse(resp)"] ∧
-    Gen.Upstream.makeRequestToHost =
-      ["u.stats.RqTotal.Inc()",
-       "req.RegisterHook(func(req *simpleRequest) { if req.Response().Type == Error { u.stats.RqFailureTotal.Inc() } else { u.stats.RqSuccessTotal.Inc() } u.stats.RqDurationMs.Record(uint64(req.Duration() / time.Millisecond)) })",
-       "select { case <-u.quit: req.SetResponse(newError(upstreamExited)) return default: }",
-       "c, err := u.getClient(addr)",
-       "if err != nil { u.triggerSlotsRefresh() req.SetResponse(newError(err.Error())) return }",
-       "c.Send(req)"] := by
-  refine ⟨rfl, rfl, rfl, rfl⟩
 
 /-! ### added: completion under every schedule / interference -/
 def followAdv (t : Truth) (present : Bool) : Nat → Nat → Bool → List Bool → Option (Nat × Nat)
@@ -180,6 +153,64 @@ theorem interference_only_costs_hops (t : Truth) (present : Bool)
           · have : ¬ dst = first := fun h => hfd h.symm
             simp [nodeAnswer, hf, this]
         rw [adv_moved _ _ _ _ owner _ _ hm, h1]; rfl
+
+/-- **The code the model was written against.** The statements of the modelled functions,
+regenerated from the current source on every run, are the ones the model was written against;
+any edit to one of them makes this obligation fail and starts a search for a failing input. -/
+theorem code_matches_model :
+    Gen.Upstream.getClient =
+      ["c, ok := u.loadClients()[addr]",
+      "if ok { return c, nil }",
+      "v, loaded := u.createClientCalls.LoadOrStore(addr, &createClientCall{ done: make(chan struct{}), })",
+      "call := v.(*createClientCall)",
+      "if loaded { <-call.done return call.res, call.err }",
+      "c, err := u.createClient(addr)",
+      "call.res, call.err = c, err",
+      "close(call.done)",
+      "u.createClientCalls.Delete(addr)",
+      "return c, err"] ∧
+    Gen.Upstream.createClient =
+      ["u.clientsMu.Lock()",
+      "defer u.clientsMu.Unlock()",
+      "select { case <-u.quit: return nil, errors.New(upstreamExited) default: }",
+      "c, ok := u.loadClients()[addr]",
+      "if ok { return c, nil }",
+      "conn, err := netutil.Dial(\"tcp\", addr, *u.cfg.ConnectTimeout)",
+      "if err != nil { return nil, err }",
+      "options := []clientOption{ withKeyCounter(u.hkc.AllocCounter(addr)), withRedirectionCb(u.handleRedirection), withClusterDownCb(u.handleClusterDown), }",
+      "c, err = newClient(conn, u.cfg, u.logger, options...)",
+      "if err != nil { return nil, err }",
+      "go func() { c.Start() u.removeClient(addr) }()",
+      "u.addClientLocked(addr, c)",
+      "return c, nil"] ∧
+    Gen.Upstream.removeClient =
+      ["u.clientsMu.Lock()",
+      "defer u.clientsMu.Unlock()",
+      "u.removeClientLocked(addr)"] ∧
+    Gen.Upstream.makeRequestToHost =
+      ["u.stats.RqTotal.Inc()",
+      "req.RegisterHook(func(req *simpleRequest) { if req.Response().Type == Error { u.stats.RqFailureTotal.Inc() } else { u.stats.RqSuccessTotal.Inc() } u.stats.RqDurationMs.Record(uint64(req.Duration() / time.Millisecond)) })",
+      "select { case <-u.quit: req.SetResponse(newError(upstreamExited)) return default: }",
+      "c, err := u.getClient(addr)",
+      "if err != nil { u.triggerSlotsRefresh() req.SetResponse(newError(err.Error())) return }",
+      "c.Send(req)"] ∧
+    Gen.Upstream.handleResp =
+      ["if v.Type != Error { req.SetResponse(v) return }",
+      "i := bytes.Index(v.Text, []byte(\" \"))",
+      "var errPrefix []byte",
+      "if i != -1 { errPrefix = v.Text[:i] }",
+      "switch { case bytes.EqualFold(errPrefix, []byte(MOVED)), bytes.EqualFold(errPrefix, []byte(ASK)): if c.onRedirection != nil { c.onRedirection(req, v) return } case bytes.EqualFold(errPrefix, []byte(CLUSTERDOWN)): if c.onClusterDown != nil { c.onClusterDown(req, v) return } }",
+      "req.SetResponse(v)"] ∧
+    Gen.Upstream.handleRedirection =
+      ["err := strings.Split(string(resp.Text), \" \")",
+      "if len(err) < 3 { req.SetResponse(resp) return }",
+      "hostAddr := err[2]",
+      "switch strings.ToLower(err[0]) { case MOVED: u.stats.Counter(\"moved\").Inc() u.MakeRequestToHost(hostAddr, req) case ASK: askingReq := newSimpleRequest(newArray( *newBulkString(ASKING), )) u.MakeRequestToHost(hostAddr, askingReq) u.MakeRequestToHost(hostAddr, req) default: req.SetResponse(resp) return }",
+      "u.triggerSlotsRefresh()"] ∧
+    Gen.Upstream.handleClusterDown =
+      ["u.triggerSlotsRefresh()",
+      "req.SetResponse(resp)"] := by
+  refine ⟨rfl, rfl, rfl, rfl, rfl, rfl, rfl⟩
 
 end SamVerif.Props.C04
 
